@@ -45,7 +45,7 @@ def gen_cases(rng, tier, rnd):
                               'words': _pick_words(rng, s['Sigma'], lambda w: rpda.accepts(s, w), 4, 4, 2)})
     for _ in range({'quick': 1, 'thorough': 4, 'selftest': 1}[tier]):
         # the closure limit raised above its default, and a run whose epsilon path needs more than 1000 search steps
-        a = genpda.big_closure_pda(rng, depth=10)
+        a = genpda.big_closure_pda(rng, depth=10, needle=False)
         s, rank = genfa.rename(a, rng)
         cases.append({'kind': 'pda', 'spec': s, 'rank': rank, 'abs': hx(a), 'limit': rng.choice([2500, 3000, 5000]), 'words': [s['Sigma'][0]]})
     while len(cases) < n:
